@@ -1,6 +1,7 @@
 package eng
 
 import (
+	"sync"
 	"go/constant"
 	"go/token"
 	"go/types"
@@ -38,7 +39,73 @@ func StaticCallee(c ssa.CallInstruction) *ssa.Function {
 	if f := cc.StaticCallee(); f != nil {
 		return f
 	}
+	if cc.IsInvoke() {
+		return soleImplementation(c)
+	}
 	return nil
+}
+
+var soleImplCache sync.Map
+
+type soleKey struct {
+	iface  types.Type
+	method string
+	prog   *ssa.Program
+}
+
+// soleImplementation resolves a call through an interface declared in the module to the one method it can
+// reach when exactly one type of the module implements that interface (an interface extracted for a
+// dependency that has a single implementation is a static call written differently).
+func soleImplementation(c ssa.CallInstruction) *ssa.Function {
+	cc := c.Common()
+	nt, ok := cc.Value.Type().(*types.Named)
+	if !ok || nt.Obj().Pkg() == nil || !strings.HasPrefix(nt.Obj().Pkg().Path(), ModPath) {
+		return nil
+	}
+	iface, ok := nt.Underlying().(*types.Interface)
+	if !ok || c.Parent() == nil {
+		return nil
+	}
+	prog := c.Parent().Prog
+	key := soleKey{nt, cc.Method.Name(), prog}
+	if v, ok := soleImplCache.Load(key); ok {
+		f, _ := v.(*ssa.Function)
+		return f
+	}
+	var impls []types.Type
+	for _, pk := range prog.AllPackages() {
+		if pk.Pkg == nil || !strings.HasPrefix(pk.Pkg.Path(), ModPath) {
+			continue
+		}
+		sc := pk.Pkg.Scope()
+		for _, n := range sc.Names() {
+			tn, ok := sc.Lookup(n).(*types.TypeName)
+			if !ok || tn.IsAlias() {
+				continue
+			}
+			t := tn.Type()
+			if _, isI := t.Underlying().(*types.Interface); isI {
+				continue
+			}
+			if named, ok := t.(*types.Named); ok && named.TypeParams().Len() > 0 {
+				continue
+			}
+			switch {
+			case types.Implements(t, iface):
+				impls = append(impls, t)
+			case types.Implements(types.NewPointer(t), iface):
+				impls = append(impls, types.NewPointer(t))
+			}
+		}
+	}
+	var res *ssa.Function
+	if len(impls) == 1 {
+		if sel := prog.MethodSets.MethodSet(impls[0]).Lookup(cc.Method.Pkg(), cc.Method.Name()); sel != nil {
+			res = prog.MethodValue(sel)
+		}
+	}
+	soleImplCache.Store(key, res)
+	return res
 }
 
 // CalleeName returns the qualified name of the callee: for static calls the
@@ -46,6 +113,9 @@ func StaticCallee(c ssa.CallInstruction) *ssa.Function {
 func CalleeName(c ssa.CallInstruction) string {
 	cc := c.Common()
 	if cc.IsInvoke() {
+		if f := soleImplementation(c); f != nil {
+			return FuncName(f)
+		}
 		t := cc.Value.Type()
 		name := t.String()
 		if nt, ok := t.(*types.Named); ok {
